@@ -107,20 +107,16 @@ CMP_NEG = {'Lt': 'Ge', 'Gt': 'Le', 'Le': 'Gt', 'Ge': 'Lt', 'Eq': 'Ne', 'Ne': 'Eq
 
 def norm_cmp(e):
     """normalise a comparison atom to (op, l, r) with the outcome folded in (i.e. the relation that
-    HOLDS on this path), or None"""
-    t = e.d['term']
-    out = e.d['outcome']
-    neg = False
-    while t[0] == 'un' and t[1] == 'Not':
-        t = t[2]
-        neg = not neg
-    if t[0] == 'bin' and t[1] in CMP_NEG and out in ('true', 'false'):
-        op = t[1]
-        holds = (out == 'true') != neg
-        if not holds:
-            op = CMP_NEG[op]
+    HOLDS on this path), or None.  The boolean may be tested directly, negated, or through
+    `cond.then_some(..)` being matched."""
+    bf = bool_fact(e) if e.kind == 'atom' else None
+    if not bf:
+        return None
+    t, holds = bf
+    if t[0] == 'bin' and t[1] in CMP_NEG:
+        op = t[1] if holds else CMP_NEG[t[1]]
         return (op, strip(t[2]), strip(t[3]))
-    if t[0] == 'call' and out in ('true', 'false') and len(t[2]) == 2:
+    if t[0] == 'call' and len(t[2]) == 2:
         c = t[1]
         m = None
         if 'cmp' in c or 'PartialEq' in c or 'PartialOrd' in c:
@@ -128,7 +124,6 @@ def norm_cmp(e):
                 if c.endswith(nm):
                     m = op
         if m:
-            holds = (out == 'true') != neg
             if not holds:
                 m = CMP_NEG[m]
             return (m, strip(t[2][0]), strip(t[2][1]))
